@@ -557,6 +557,8 @@ class Engine:
                 v = self.deref(v)
             if isinstance(v, Agg) and "items" in v.f:
                 return BV(len(v.f["items"]), 64)
+            if isinstance(v, Agg) and "len" in v.f:
+                return v.f["len"]            # abstract slice / vector: symbolic length
             if isinstance(v, list):
                 return BV(len(v), 64)
             raise Unknown("PtrMetadata of " + repr(v)[:60])
